@@ -5,6 +5,9 @@ import (
 	"math/rand"
 
 	gots "github.com/Comcast/gots/v2"
+	"github.com/Comcast/gots/v2/packet"
+	"github.com/Comcast/gots/v2/psi"
+	"github.com/Comcast/gots/v2/scte35"
 )
 
 // C13: ComputeCRC is CRC-32/MPEG-2.
@@ -42,6 +45,19 @@ func (c13) Gen(tier string, seed int64, emit func([]Ev)) {
 			one(d)
 		}
 	}
+	// sections emitted by the library itself: encoded splice_info_sections (with and without
+	// alignment stuffing) and filtered PMTs must have CRC residue zero
+	nem := 120
+	if tier == "thorough" {
+		nem = 2500
+	}
+	for i := 0; i < nem; i++ {
+		if i%3 == 2 {
+			emit([]Ev{{"op": "emitted", "kind": "pmt", "seed": int(r.Int31()), "astuff": 0}})
+		} else {
+			emit([]Ev{{"op": "emitted", "kind": "scte35", "seed": int(r.Int31()), "astuff": []int{0, 0, 1, 2, 3, 4, 7}[r.Intn(7)]}})
+		}
+	}
 	for i := 0; i < nrand; i++ {
 		ln := r.Intn(1025)
 		if i%5 == 0 {
@@ -63,8 +79,87 @@ func (c13) Gen(tier string, seed int64, emit func([]Ev)) {
 	}
 }
 
+// c13Emitted produces sections through the library's own emitters.
+func c13Emitted(e Ev) {
+	r := rand.New(rand.NewSource(int64(GI(e["seed"]))))
+	switch GS(e["kind"]) {
+	case "scte35":
+		s := scte35.CreateSCTE35()
+		switch r.Intn(3) {
+		case 0:
+			c := scte35.CreateTimeSignalCommand()
+			c.SetHasPTS(true)
+			s.SetCommandInfo(c)
+			s.SetPTS(gots.PTS(rnd33(r)))
+		case 1:
+			c := scte35.CreateSpliceInsertCommand()
+			c.SetEventID(rndEid(r))
+			c.SetHasPTS(r.Intn(2) == 0)
+			c.SetSpliceImmediate(r.Intn(2) == 0)
+			c.SetHasDuration(r.Intn(2) == 0)
+			c.SetDuration(gots.PTS(rnd33(r)))
+			s.SetCommandInfo(c)
+		}
+		var ds []scte35.SegmentationDescriptor
+		for k := r.Intn(3); k > 0; k-- {
+			d := scte35.CreateSegmentationDescriptor()
+			d.SetEventID(rndEid(r))
+			d.SetTypeID(scte35.SegDescType(segTypes[r.Intn(len(segTypes))]))
+			d.SetHasProgramSegmentation(true)
+			d.SetIsDeliveryNotRestricted(r.Intn(2) == 0)
+			if r.Intn(2) == 0 {
+				d.SetHasDuration(true)
+				d.SetDuration(gots.PTS(rnd40(r)))
+			}
+			d.SetUPIDType(scte35.SegUPIDType(9))
+			d.SetUPID(rndBytes(r, r.Intn(12)))
+			ds = append(ds, d)
+		}
+		s.SetDescriptors(ds)
+		s.SetTier(uint16(r.Intn(4096)))
+		s.SetAlignmentStuffing(uint(GI(e["astuff"])))
+		e["section"] = B(s.UpdateData())
+	case "pmt":
+		pmt := randPMT(r, 1+r.Intn(8), false)
+		pl := c06Payload(0, nil, pmtSection(pmt), 0)
+		pk := packetise(r, pl, splitSizes(len(pl), minInt(len(pl), 1+r.Intn(184))), 0x100, r.Intn(2) == 0)
+		in := make([]*packet.Packet, len(pk))
+		for i := range pk {
+			in[i] = &pk[i]
+		}
+		var keep []int
+		for _, st := range pmt.Streams {
+			if r.Intn(2) == 0 {
+				keep = append(keep, st.Pid)
+			}
+		}
+		if len(keep) == 0 {
+			keep = []int{pmt.Streams[0].Pid}
+		}
+		out, err := psi.FilterPMTPacketsToPids(in, keep)
+		if err != nil || len(out) == 0 {
+			panic("harness: filter failed on a well-formed PMT")
+		}
+		var car []byte
+		for _, p := range out {
+			pay, _ := packet.Payload(p)
+			car = append(car, pay...)
+		}
+		sl := int(car[2]&0x03)<<8 | int(car[3])
+		if 4+sl > len(car) {
+			sl = len(car) - 4
+		}
+		e["section"] = B(car[1 : 4+sl])
+	}
+}
+
 func (c13) Exec(h []Ev) []Ev {
 	for _, e := range h {
+		if GS(e["op"]) == "emitted" {
+			e["section"] = []int{}
+			e["panic"] = guard(func() { c13Emitted(e) })
+			continue
+		}
 		d := GB(e["data"])
 		keep := append([]byte(nil), d...)
 		e["panic"] = guard(func() {
@@ -78,6 +173,9 @@ func (c13) Exec(h []Ev) []Ev {
 }
 
 func (c13) Class(e Ev) string {
+	if GS(e["op"]) == "emitted" {
+		return fmt.Sprintf("emitted/%s/astuff%d", GS(e["kind"]), GI(e["astuff"]))
+	}
 	d := GB(e["data"])
 	ones := 0
 	for _, x := range d {
